@@ -126,6 +126,10 @@ func (ex *Exec) assume(c *Term) {
 		ex.assert(c)
 		return
 	}
+	if ex.unitConjFeasible(c) {
+		ex.assert(c)
+		return
+	}
 	r := ex.solver.CheckWith(c)
 	if r == "unsat" {
 		ex.prune("assumption infeasible")
@@ -134,6 +138,68 @@ func (ex *Exec) assume(c *Term) {
 		ex.h.noteUnknown("assume feasibility: " + trunc(c.SMT(), 200))
 	}
 	ex.assert(c)
+}
+
+// unitConjFeasible: c is a conjunction of unit literals over independent variables and all of them are feasible.
+func (ex *Exec) unitConjFeasible(c *Term) bool {
+	var lits []*Term
+	var walk func(t *Term) bool
+	walk = func(t *Term) bool {
+		if t.op == "and" {
+			for _, a := range t.args {
+				if !walk(a) {
+					return false
+				}
+			}
+			return true
+		}
+		lits = append(lits, t)
+		return true
+	}
+	walk(c)
+	seen := map[string]bool{}
+	for _, l := range lits {
+		u, ok := unitLiteral(l)
+		if !ok {
+			return false
+		}
+		d := ex.domOf(u)
+		if d.complex {
+			return false
+		}
+		// two literals on the same variable interact: only accept the common IntRange shape lo<=v<=hi
+		if seen[u.name] && !(u.op == "<=" || u.op == ">=") {
+			return false
+		}
+		seen[u.name] = true
+		if !d.feasible(u) {
+			return false
+		}
+	}
+	// bounds pairs lo<=v and v<=hi: check jointly
+	for name := range seen {
+		d := ex.doms[name]
+		if d.isBool {
+			continue
+		}
+		lo, hi := d.lo, d.hi
+		for _, l := range lits {
+			u, _ := unitLiteral(l)
+			if u.name != name {
+				continue
+			}
+			if u.op == "<=" {
+				hi = minBig(hi, u.c)
+			}
+			if u.op == ">=" {
+				lo = maxBig(lo, u.c)
+			}
+		}
+		if !d.nonEmpty(lo, hi) {
+			return false
+		}
+	}
+	return true
 }
 
 // replaying reports whether execution is still inside the decision prefix shared with an earlier path:
@@ -217,12 +283,15 @@ func init() {
 			t := ex.nondet(constStr(ex, args[0], "nondet name"), "int")
 			lo, hi := asTerm(args[1]), asTerm(args[2])
 			ex.assume(mkAnd(mkLe(lo, t), mkLe(t, hi)))
-			if lo.op == "c" && hi.op == "c" {
+			if lo.lo != nil && hi.hi != nil {
 				// tighten interval knowledge
-				t2 := mkVarBounded(t.s, lo.i, hi.i)
+				t2 := mkVarBounded(t.s, lo.lo, hi.hi)
 				return t2
 			}
 			return t
+		},
+		rtPkg + ".Concrete": func(ex *Exec, fr *frame, fn *ssa.Function, args []Value, pos tokenPos) Value {
+			return mkInt(int64(ex.concretize(asTerm(args[0]), "verifrt.Concrete")))
 		},
 		rtPkg + ".Bound": func(ex *Exec, fr *frame, fn *ssa.Function, args []Value, pos tokenPos) Value {
 			if ex.eng.tier == "thorough" {
@@ -278,6 +347,9 @@ func init() {
 			f, ok := args[1].(IfaceV).v.(FuncV)
 			if !ok {
 				ex.unsupported("Stub: second argument must be a function")
+			}
+			if tf := ex.eng.findFunc(name); tf == nil || tf.String() != name {
+				ex.unsupported("Stub: target not found: " + name)
 			}
 			ex.stubs[name] = f
 			return nil
@@ -629,10 +701,17 @@ func init() {
 			if t, ok := ex.hashOf[p.c.id]; ok {
 				return t
 			}
-			t := ex.fresh("hash", SStr)
-			ex.solver.Send(fmt.Sprintf("(assert (>= (str.len %s) 1))", smtSym(t.s)))
+			t := mkConcat(mkStr("#hash#"), ex.fresh("hash", SStr))
 			ex.hashOf[p.c.id] = t
 			return t
+		},
+		repoMod + "/pkg/util.HashReleasePlanBatches": func(ex *Exec, fr *frame, fn *ssa.Function, args []Value, pos tokenPos) Value {
+			p := args[0].(PtrV)
+			if p.c == nil {
+				ex.raise(fr, pos, "nil pointer dereference (HashReleasePlanBatches(nil))")
+			}
+			node := ex.jsonEncode(ex.load(p.c), p.c.typ, 0)
+			return ex.hashOfNode(node)
 		},
 		// ---------------- misc ----------------
 		"os.Getenv": func(ex *Exec, fr *frame, fn *ssa.Function, args []Value, pos tokenPos) Value { return mkStr("") },
@@ -643,7 +722,7 @@ func init() {
 	pseudoBuiltins["noop"] = func(ex *Exec, fr *frame, f FuncV, args []Value, pos tokenPos) Value { return nil }
 }
 
-var deniedPkgs = map[string]bool{"reflect": true, "unsafe": true, "runtime": true, "syscall": true, "os": true, "net": true, "net/http": true,
+var deniedPkgs = map[string]bool{"time": true, "reflect": true, "unsafe": true, "runtime": true, "syscall": true, "os": true, "net": true, "net/http": true,
 	"encoding/json": true, "os/exec": true, "io/ioutil": true, "regexp": true, "math/rand": true, "sync/atomic": true, "encoding/hex": true,
 	"github.com/davecgh/go-spew/spew": true, "github.com/evanphx/json-patch": true, "github.com/yuin/gopher-lua": true, "sigs.k8s.io/yaml": true,
 	"k8s.io/apimachinery/pkg/util/json": true, "encoding/base64": true}
@@ -774,6 +853,24 @@ func invFromInt(s *Term) (*Term, bool) {
 		}
 	}
 	return nil, false
+}
+
+// hashOfNode: an uninterpreted hash of a JSON document — structurally equal documents get equal hashes.
+func (ex *Exec) hashOfNode(node *JNode) *Term {
+	// hashes carry a constant marker prefix so that a hash never equals an unrelated literal
+	var res *Term = mkConcat(mkStr("#hash#"), ex.fresh("hash", SStr))
+	h := res
+	for i := len(ex.hashedNodes) - 1; i >= 0; i-- {
+		eq := ex.jnodeEq(node, ex.hashedNodes[i].node)
+		h = mkIte(eq, ex.hashedNodes[i].hash, h)
+	}
+	ex.hashedNodes = append(ex.hashedNodes, hashedNode{node, h})
+	return h
+}
+
+type hashedNode struct {
+	node *JNode
+	hash *Term
 }
 
 // replaceOnToken models the two whole-document rewrites the repository applies to marshalled JSON.
